@@ -267,7 +267,10 @@ pub fn run(ctx: &Ctx, focus: &str) -> Result<()> {
 	if focus != "c11" {
 		for i in 0..n / 4 {
 			let k = rng.range(2, 4) as usize;
-			let tiles: Vec<Option<GTile>> = (0..k).map(|_| if rng.chance(5, 6) { Some(gen_tile(&mut rng, None)) } else { None }).collect();
+			let mut tiles: Vec<Option<GTile>> = (0..k).map(|_| if rng.chance(5, 6) { Some(gen_tile(&mut rng, None)) } else { None }).collect();
+			// overlapping extracts of one data set: now and then a source delivers exactly the tile of the source listed before it
+			// (the merged layers then hold those features twice)
+			if i % 4 == 1 { let j = 1 + rng.below(k as u64 - 1) as usize; tiles[j] = tiles[j - 1].clone(); }
 			let comps = [TileCompression::Uncompressed, TileCompression::Gzip, TileCompression::Brotli];
 			let mut names = Vec::new();
 			for (j, t) in tiles.iter().enumerate() {
